@@ -2130,9 +2130,13 @@ static bool parse_ignored(TokenContext &ctx, Chunk &pc)
    }
 
    // Look for the ending comment and let it pass
-   if (  parse_comment(ctx, pc)
-      && !cpd.unc_off)
+   if (parse_comment(ctx, pc))
    {
+      if (cpd.unc_off)
+      {
+         // the text is not in this comment: it is a part of the region
+         pc.SetType(CT_IGNORED);
+      }
       return(true);
    }
    // Reset the chunk & scan to until a newline
